@@ -131,8 +131,10 @@ def emit_eom(m, orient):
                 else:
                     xs.append('  <associations description="" sourceObject="%d" targetObject="%d" id="%d" sourceProperty="%s" targetProperty="%s"/>' % (x, y, 1000 + n, f2, f1))
     for k, v in d['attackers'].items():
-        for a, s in v['entry_points'].items():
-            for st in s['attack_steps']:
+        flat = [(a, st, i) for a, s in v['entry_points'].items() for i, st in enumerate(s['attack_steps'])]
+        flat.sort(key=lambda x: x[2])          # first steps of different assets interleaved: A.s, B.tO, ..., A.tP
+        for a, st, _i in flat:
+            if True:
                 n += 1
                 if (orient + n) % 2 == 0:
                     xs.append('  <associations description="" sourceObject="%d" targetObject="%d" id="%d" sourceProperty="firstSteps" targetProperty="%s.attacker"/>' % (int(k), int(a), 1000 + n, st))
